@@ -109,7 +109,44 @@ def reusing_sender_body(mido, port, sender, n, sent):
     return body
 
 
-def receiver_body(mido, port, n, how='receive'):
+def rt_resending_body(mido, port, sender, n, sent, type_='clock'):
+    """Sends the SAME real-time message object n times; its time attribute
+    (the only thing such a message carries) numbers the sends and is
+    overwritten after each send."""
+    def body():
+        out = []
+        m = mido.Message(type_)
+        for k in range(n):
+            m.time = 10 * sender + k
+            sent.append((sender, k))
+            try:
+                port.send(m)
+                out.append(('sent', sender, k))
+            except Exception as e:
+                out.append(('raised', 'send', type(e).__name__, str(e)))
+                return out
+            m.time = 999
+        return out
+    return body
+
+
+def rt_view(sender, type_='clock'):
+    # presents a received real-time message in the ('got', sender, number,
+    # velocity, type) form the judge expects
+    def view(m):
+        t = getattr(m, 'time', None)
+        return ('got', sender, t, 64 if t != 999 else 1,
+                'note_on' if getattr(m, 'type', None) == type_ else
+                getattr(m, 'type', None))
+    return view
+
+
+def note_view(m):
+    return ('got', getattr(m, 'channel', None), getattr(m, 'note', None),
+            getattr(m, 'velocity', None), getattr(m, 'type', None))
+
+
+def receiver_body(mido, port, n, how='receive', view=note_view):
     def body():
         out = []
         while len([o for o in out if o[0] == 'got']) < n:
@@ -127,15 +164,12 @@ def receiver_body(mido, port, n, how='receive'):
                         mido.ports.sleep()
                         continue
                     for m in ms:
-                        out.append(('got', m.channel, m.note, m.velocity,
-                                    m.type))
+                        out.append(view(m))
                     continue
             except Exception as e:
                 out.append(('raised', how, type(e).__name__, str(e)))
                 return out
-            out.append(('got', getattr(m, 'channel', None),
-                        getattr(m, 'note', None), getattr(m, 'velocity', None),
-                        getattr(m, 'type', None)))
+            out.append(view(m))
         return out
     return body
 
@@ -166,6 +200,22 @@ def programs(mido, size):
                       receiver_body(mido, port, 3)]
             return bodies, lambda: {'sent': sent, 'keep': port,
                                     'identity': port}
+        return make
+
+    def p_reuse_rt(kind):
+        def make():
+            if kind == 'echo':
+                port = mido.ports.EchoPort()
+                keep = port
+            else:
+                wire = []
+                port = ByteDouble('dev', wire_out=wire, wire_in=wire)
+                keep = port
+            assert_coop(port)
+            sent = []
+            bodies = [rt_resending_body(mido, port, 0, 3, sent),
+                      receiver_body(mido, port, 3, view=rt_view(0))]
+            return bodies, lambda: {'sent': sent, 'keep': keep}
         return make
 
     def p_two_ports():
@@ -337,6 +387,7 @@ def programs(mido, size):
         'P5-parser-queue': p_queue(),
         'P5b-parser-queue-batch': p_queue(batch=True),
         'P6-echo-same-object-resent': p_reuse(),
+        'P6b-echo-same-clock-object-resent': p_reuse_rt('echo'),
         'P7-two-independent-ports': p_two_ports(),
     })
     return progs
